@@ -1179,6 +1179,6 @@ MANIFEST = dict(
         " By value: the context window of the kernel for scalar / one-element / per-element indices (51 rows), the ARPA reader on a three-order text in base 10 and e, the orders visited by the start-symbol re-keying."),
     level_note="Trusted: python ast; NumPy 2 promotion rules. F14 (uint8 parent index wraps; the 7 always-failing "
                "baseline tests) was found by G21 and repaired by a fix: commit.",
-    technique="static analysis: polynomial normal forms of layout constants, path-based definite assignment, argument binding, numeric-type taint; typestate of the buffers while loading (no read of old contents before the copy, also through defaulted helper arguments); interpretation of the kernel's window selection over exact tensors and of parse_arpa_lm over a line stream (plain-data interpreter over the syntax tree; only re / math of the standard library are called)",
+    technique="static analysis: polynomial normal forms of layout constants, path-based definite assignment, argument binding, numeric-type taint; typestate of the buffers while loading (no read of old contents before the copy, also through defaulted helper arguments); interpretation of the kernel's window selection over exact tensors and of parse_arpa_lm over a line stream (plain-data interpreter over the syntax tree; only re / math of the standard library are called); calc_full_log_probs_chunked interpreted with the one-step scorer as a recording leaf (strided views evaluated against the receiver's storage)",
     design_ref="DESIGN.md section 4 C06",
 )
